@@ -537,14 +537,18 @@ def run_case(ctx, idx):
         ctx.violation("project:not-orthogonal", f"penalised run (penalty {penalty}) converged with |<phi0|psi>| = {ov:.3e}", w3)
     Ep = dn.energy(vp)
     target = float(dn.evp[0])
-    if not within(ctx, "project-next-level", abs(Ep - target), 1e-7 * dn.scale):
+    if abs(Ep - target) <= 1e-7 * dn.scale:
+        ctx.margin("project-next-level", abs(Ep - target), 1e-7 * dn.scale)
+    else:
         rp = float(np.linalg.norm(dn.Hp @ vp - dn.pen_energy(vp) * vp))
         if rp <= 1e-6 * dn.scale and Ep > target:
+            ctx.margin("project-next-level (not judged: stationary at a higher level)", abs(Ep - target), 1e-7 * dn.scale)
             # converged to a higher eigenstate of H + penalty |phi0><phi0| (a stationary point of the sweep, e.g. protected by
             # a symmetry of the random Hamiltonian that the tensors do not encode): convergence to the *lowest* level is an
             # asymptotic promise, so this is counted and not judged
             ctx.count("penalised_stuck_in_higher_eigenstate")
         else:
+            ctx.margin("project-next-level (violating cases)", abs(Ep - target), 1e-7 * dn.scale)
             ctx.violation("project:wrong-level", f"penalised run converged at <H> = {Ep!r}; lowest level of H + penalty|phi0><phi0| is "
                           f"{target!r} (levels {dn.ev[:3].tolist()})", w3)
 
